@@ -151,6 +151,17 @@ def judge_extra(op, impl, model, spec):
     if " | " not in impl:
         return "violation"
     nat, bri = impl.split(" | ")
+    if w[0] == "ides2":
+        # the second read stands on a well-formed text item: each side returns its value and the end position, or an error (chunked
+        # text is not accepted by either side today); what the first read left behind must not leak into it
+        for side in (nat, bri):
+            if side.startswith("ok ") and side != f"ok {ann['v']} {ann['n']}":
+                return "violation"
+            if not side.startswith(("ok ", "err ")):
+                return "violation"
+        if ann["m"] == "canon2" and not (nat.startswith("ok ") and bri.startswith("ok ")):
+            return "violation"
+        return "ok"
     n = len(w[2]) // 2 if w[2] != "-" else 0
     want = ann.get("v")
     for side in (nat, bri):
@@ -214,6 +225,13 @@ def extra_stream(rng, tier):
         elif k == "i64": vals = [str(rng.choice([0, -1, 23, 24, -25, 2**63 - 1, -2**63, rng.randint(-1000, 1000)])) for _ in range(m)]
         else: vals = [rng.choice([b"a", b"bb", b"ccc", b"", b"zz"]).hex() or "" for _ in range(m)]; vals = [v for v in vals if v]
         ops.append(f"iserh {k} {','.join(vals) or '-'} #n=1")
+    # ONE decoder / Deserializer: a String read that may fail part-way, a re-positioning, a second String read
+    firsts = ["7f626869", "7f626869ff", "7f6268697f", "7f62c328ff", "7f62686941", "626869", "7f", "7fff", "7f6268", "f6", "7f6161616262ff"]
+    for a in firsts:
+        for t in (b"abc", b"", b"a", "é€".encode(), b"x" * 24):
+            for m in ("canon", "chunk"):
+                b2 = tstr(t, 0, m == "chunk")
+                ops.append(f"ides2 {a} {b2.hex()} #m={'canon2' if m == 'canon' else 'chunk2'} #v={hxs(t)} #n={len(bytes.fromhex(a)) + len(b2)}")
     ops = list(dict.fromkeys(ops))
     return Stream("interop-borrowed-and-heaps", "hserde", ops, model_ops=["nop"] * len(ops), judge=judge_extra,
                   rule="ideb: &str-borrowing targets ((&str, u8), Vec<&str>, Option<&str>, BTreeMap<&str, &str>) through minicbor::decode and the bridge on canonical, "
@@ -223,7 +241,7 @@ def extra_stream(rng, tier):
 
 def replay_streams(rp):
     op = rp.get("original_op") or rp["op"]
-    if op.startswith(("ideb", "iserh")):
+    if op.startswith(("ideb", "iserh", "ides2")):
         s = Stream("replay", "hserde", [op], model_ops=["nop"], judge=judge_extra)
         s.shrinkable = False
         return [s]
